@@ -22,7 +22,7 @@ RULE = (
 )
 FLOORS = {"negative_index": (0.05, None), "nested_helpers": (0.4, None)}
 NESTED = ("STOCH", "TSI", "HMA", "ADX", "BBANDS", "KC", "Supertrend", "StandardDeviationThreshold", "MACD", "ATR")
-OPS = ("append", "append", "calculate", "purge", "recalculate", "calculate_index", "calculate_index", "add", "remove", "calculate_all", "purge_all", "recalculate_all")
+OPS = ("append", "append", "calculate", "purge", "recalculate", "calculate_index", "calculate_index", "calculate_index_range", "add", "remove", "calculate_all", "purge_all", "recalculate_all")
 
 
 @st.composite
@@ -67,6 +67,9 @@ def programs(draw, target="hexital", max_n=40):
         elif op == "calculate_index":
             entry["index"] = draw(st.integers(0, 60))
             entry["negative"] = draw(st.booleans())
+        elif op == "calculate_index_range":
+            entry["index"] = draw(st.integers(0, 60))
+            entry["span"] = draw(st.integers(2, 6))
         ops.append(entry)
     return {"target": target, "pool": pool, "initial": initial, "tf": tf, "preload": rows[:pre], "ops": ops}
 
@@ -326,6 +329,27 @@ def run_case(case) -> Result:
                 if not same(before, after):
                     j = next(t for t, (x, y) in enumerate(zip(before, after)) if not same(x, y))
                     return fail("calculate_index-does-not-reproduce-reading", "calculate_index:" + ("negative" if op.get("negative") else "positive"), f"{where} index {arg} of {n}: candle {j}: {before[j]!r} -> {after[j]!r}")
+            elif kind == "calculate_index_range":
+                # Indicator.calculate_index(start, end): a range of indices that all hold readings already
+                if who is None or not d.clean.get(who) or not d.ind(who).candles:
+                    continue
+                ind = d.ind(who)
+                n = len(ind.candles)
+                before = ind.as_list()
+                first = next((t for t, r in enumerate(before) if r is not None and not (isinstance(r, dict) and all(x is None for x in r.values()))), None)
+                if first is None or n - first < 2:
+                    continue
+                a = first + op["index"] % (n - first - 1)
+                b = min(n, a + op["span"])
+                full_before = d.snapshot()
+                ind.calculate_index(a, b)
+                fired += 1
+                special = True
+                if not same(before, ind.as_list()):
+                    j = next(t for t, (x, y) in enumerate(zip(before, ind.as_list())) if not same(x, y))
+                    return fail("calculate_index-does-not-reproduce-reading", "calculate_index:range", f"{where} range [{a},{b}) of {n}: candle {j}: {before[j]!r} -> {ind.as_list()[j]!r}")
+                if not same(full_before, d.snapshot()):
+                    return fail("calculate_index-changes-helper-state", "calculate_index:range", f"{where} range [{a},{b}) of {n}: " + _dict_diff(full_before, d.snapshot()))
             elif kind == "add" and d.hexital:
                 free = [j for j in range(len(d.cfgs)) if j not in d.registered]
                 if not free:
